@@ -1,5 +1,7 @@
 package main
 
+import "fmt"
+
 func init() {
 	register("C09", "Union / in-place add — structural necessary conditions: (D1) Update and Augment merge every schema field of Node except the identity fields, each store copying the same field of the argument under a non-emptiness test of the argument's field (and, for Augment, an emptiness test of the receiver's field) with the right polarity; (D2) no merge call is applied to an object and itself; (D3) Union/Add range over all operand collections with total loops; (D5) Union merges with Update and Add with Augment, argument node as parameter. Does not decide the algebraic laws as value statements.", runC09)
 	register("C12", "Copies and combined results are independent — structural necessary conditions: (D1) no reference-typed value reachable from an operand is returned or stored into the result of Copy/Union/Intersect (origin dataflow over SSA); (D2) every Copy writes every schema field of its message from the same field of the source; (D3) Copy does not turn nil into non-nil-empty where the equality encoding distinguishes them. Does not decide 'compares equal' as a value statement.", runC12)
@@ -20,6 +22,10 @@ func runC09(c *Ctx) {
 	c.floor("merge-precedence", 52, "26 Node fields × {Update, Augment}")
 	unionRules(c)
 	timestampPresenceRule(c, "timestamp-presence-by-nil", pkgFilter(c.reachDecls("timestamp-presence-by-nil", "sbom.(*NodeList).Union", "sbom.(*NodeList).Add"), "sbom."))
+	// "the union contains exactly the nodes, edges and roots found in either operand" holds for a
+	// result only as long as no later union writes into it: a result that shares a backing array
+	// with its receiver is rewritten by the receiver's next union
+	operandsUntouched(c, "union-operands-unchanged", "Union and Intersect neither write nor append onto memory reachable from the receiver or the argument (origin sets over SSA, callee summaries substituted); Add writes its receiver only", "sbom.(*NodeList).Union", "sbom.(*NodeList).Intersect")
 }
 
 func runC12(c *Ctx) {
@@ -77,4 +83,57 @@ func runC14(c *Ctx) {
 	// the list helper compares nested messages through their equality encoding: a field the
 	// encoding reads under the wrong key is a difference Diff cannot see
 	schemaMapKeyRule(c, c.reachDecls("schema-map-key", "sbom.(*Node).Diff", "sbom.(*Person).flatString", "sbom.(*ExternalReference).flatString"))
+	// "the reported additions and removals suffice to rebuild the second node from the first":
+	// only while the first (and second) node still are what they were — Diff and its helpers build
+	// their results in fresh storage, never by filtering an operand's slice or map in place
+	operandsUntouched(c, "diff-operands-unchanged", "Node.Diff and the helpers it calls neither write nor append onto memory reachable from the receiver or the argument (origin sets over SSA, callee summaries substituted): the result lists are fresh, the compared nodes are unchanged and a second Diff of the same pair reports the same", "sbom.(*Node).Diff")
+}
+
+// operandsUntouched: no write and no kept append on memory reachable from any reference-typed
+// parameter of the named functions.
+func operandsUntouched(c *Ctx, R, text string, names ...string) {
+	operandsUntouchedIn(c, R, text, nil, names...)
+}
+
+// operandsUntouchedIn restricts the rule to the given roles ("receiver", "argument"); nil = all.
+func operandsUntouchedIn(c *Ctx, R, text string, roles map[string]bool, names ...string) {
+	c.rule(R, text)
+	o := newOrigins(c.P)
+	for _, name := range names {
+		fn := c.P.Func(name)
+		if fn == nil {
+			c.undecided(R, "anchor:"+name, "-", "function not found")
+			continue
+		}
+		c.sawFunc(name)
+		s := o.sums[fn]
+		if s == nil {
+			c.undecided(R, name, c.P.Pos(fn.Pos()), "no summary computed")
+			continue
+		}
+		for j, p := range fn.Params {
+			if !isRefType(p.Type()) {
+				continue
+			}
+			role := "argument"
+			if j == 0 && fn.Signature.Recv() != nil {
+				role = "receiver"
+			}
+			if roles != nil && !roles[role] {
+				continue
+			}
+			var w []mutation
+			for _, m := range s.muts {
+				if m.param == j {
+					w = append(w, m)
+				}
+			}
+			construct := fmt.Sprintf("%s#%s", name, role)
+			if len(w) == 0 {
+				c.ok(R, construct, c.P.Pos(fn.Pos()), "no write to memory reachable from the "+role)
+			} else {
+				c.bad(R, construct, c.P.Pos(w[0].pos), describeMuts(c, name, "the "+role, w))
+			}
+		}
+	}
 }
